@@ -121,6 +121,9 @@ class SdoServer(SdoBase):
     def block_download(self, data):
         # We currently don't support BLOCK DOWNLOAD
         logger.error("Block download is not supported")
+        if data[0] & 0x1 == INITIATE_BLOCK_TRANSFER:
+            # Refuse the object the client asked for, not the previous transfer's
+            _, self._index, self._subindex = SDO_STRUCT.unpack_from(data)
         self.abort(0x05040001)
 
     def init_download(self, request):
